@@ -506,15 +506,14 @@ class UnitBuild:
             ap = self.atoms_part
             self.atom_table = dict(local={n: i + 1 for i, n in enumerate(locals_)}, ns={n: i + 1 for i, n in enumerate(nss)},
                                    prefix={n: i + 1 for i, n in enumerate(prefixes)})
-            m = 'macro_rules! local_name {' + ' '.join('("%s") => { %s(%d) };' % (n, ap.local_ctor, i + 1) for i, n in enumerate(locals_))
-            m += ' ' + ' '.join('(%s) => { %s(%d) };' % (n, ap.local_ctor, i + 1) for i, n in enumerate(locals_) if n in set(tagtok) and re.fullmatch(r'[A-Za-z_]\w*', n)) + ' }\n'
-            m += 'macro_rules! ns {' + ' '.join('(%s) => { %s(%d) };' % (n, ap.ns_ctor, i + 1) for i, n in enumerate(nss)) + ' }\n'
+            m = ''
+            if locals_:
+                m += 'macro_rules! local_name {' + ' '.join('("%s") => { %s(%d) };' % (n, ap.local_ctor, i + 1) for i, n in enumerate(locals_))
+                m += ' ' + ' '.join('(%s) => { %s(%d) };' % (n, ap.local_ctor, i + 1) for i, n in enumerate(locals_) if n in set(tagtok) and re.fullmatch(r'[A-Za-z_]\w*', n)) + ' }\n'
+            if nss:
+                m += 'macro_rules! ns {' + ' '.join('(%s) => { %s(%d) };' % (n, ap.ns_ctor, i + 1) for i, n in enumerate(nss)) + ' }\n'
             if prefixes:
                 m += 'macro_rules! namespace_prefix {' + ' '.join('("%s") => { %s(%d) };' % (n, ap.prefix_ctor, i + 1) for i, n in enumerate(prefixes)) + ' }'
-            if not locals_:
-                m = m.replace('macro_rules! local_name { }', '')
-            if not nss:
-                m = m.replace('macro_rules! ns { }', '')
             self.gen.lines[self.atoms_at] = m.replace('\n', ' ')
             self.count('R4-atoms', len(locals_) + len(nss) + len(prefixes))
         # every contract block must have been used (a lost anchor is undecided, not a pass)
